@@ -767,3 +767,80 @@ mod tests {
         assert_eq!(connection.sent_packets.len(), 0);
     }
 }
+
+#[cfg(feature = "verif_hooks")]
+impl RenetClient {
+    /// (accounted bytes, configured maximum) of a receive channel.
+    pub fn verif_receive_memory(&self, channel_id: u8) -> Option<(usize, usize)> {
+        if let Some(c) = self.receive_reliable_channels.get(&channel_id) {
+            Some(c.verif_memory())
+        } else {
+            self.receive_unreliable_channels.get(&channel_id).map(|c| c.verif_memory())
+        }
+    }
+
+    /// (accounted bytes, configured maximum) of a send channel.
+    pub fn verif_send_memory(&self, channel_id: u8) -> Option<(usize, usize)> {
+        if let Some(c) = self.send_reliable_channels.get(&channel_id) {
+            Some(c.verif_memory())
+        } else {
+            self.send_unreliable_channels.get(&channel_id).map(|c| c.verif_memory())
+        }
+    }
+
+    /// Number of partially reassembled sliced messages held by a receive channel.
+    pub fn verif_receive_partial_messages(&self, channel_id: u8) -> Option<usize> {
+        if let Some(c) = self.receive_reliable_channels.get(&channel_id) {
+            Some(c.verif_partial_messages())
+        } else {
+            self.receive_unreliable_channels.get(&channel_id).map(|c| c.verif_partial_messages())
+        }
+    }
+
+    /// Unacknowledged messages of a reliable send channel.
+    pub fn verif_unacked(&self, channel_id: u8) -> Option<Vec<crate::verif::UnackedInfo>> {
+        self.send_reliable_channels.get(&channel_id).map(|c| c.verif_unacked())
+    }
+
+    pub fn verif_pending_acks(&self) -> Vec<Range<u64>> {
+        self.pending_acks.clone()
+    }
+
+    pub fn verif_sent_packets(&self) -> Vec<u64> {
+        self.sent_packets.keys().copied().collect()
+    }
+
+    pub fn verif_packet_sequence(&self) -> u64 {
+        self.packet_sequence
+    }
+
+    pub fn verif_current_time(&self) -> Duration {
+        self.current_time
+    }
+
+    /// Counter preset: next packet sequence number to be used.
+    pub fn verif_set_packet_sequence(&mut self, sequence: u64) {
+        self.packet_sequence = sequence;
+    }
+
+    /// Counter preset: next message id of a reliable send channel.
+    pub fn verif_set_next_send_message_id(&mut self, channel_id: u8, id: u64) {
+        if let Some(c) = self.send_reliable_channels.get_mut(&channel_id) {
+            c.verif_set_next_message_id(id);
+        }
+    }
+
+    /// Counter preset: delivery cursor of a reliable receive channel (set on the peer of a preset sender).
+    pub fn verif_set_next_receive_message_id(&mut self, channel_id: u8, id: u64) {
+        if let Some(c) = self.receive_reliable_channels.get_mut(&channel_id) {
+            c.verif_set_oldest_pending_message_id(id);
+        }
+    }
+
+    /// Counter preset: next sliced message id of an unreliable send channel.
+    pub fn verif_set_unreliable_sliced_id(&mut self, channel_id: u8, id: u64) {
+        if let Some(c) = self.send_unreliable_channels.get_mut(&channel_id) {
+            c.verif_set_sliced_message_id(id);
+        }
+    }
+}
